@@ -994,10 +994,12 @@ class Sys:
         elif mid.startswith('bcastu') and ctx is not None:
             # broadcast of the unit message: reaches the children registered with add_child (message type `()`)
             tag = 'u' + mid[6:]
+            st.event('bcast_from', tag, fut.extra.get('actor') or 'ctx0')
             self.sync_call(st, 'context::Context::<A>::send_to_children::<()>', [VRef(ctx.root, ctx.path, True), Msg.new(tag)])
             st.event('script_result', 'send_to_children', tag)
         elif mid.startswith('bcast') and ctx is not None:
             tag = 'b' + mid[5:]
+            st.event('bcast_from', tag, fut.extra.get('actor') or 'ctx0')
             self.sync_call(st, 'context::Context::<A>::send_to_children::<M>', [VRef(ctx.root, ctx.path, True), Msg.new(tag)])
             st.event('script_result', 'send_to_children', tag)
         elif mid.startswith('ctxrestart') and ctx is not None:
